@@ -1,0 +1,265 @@
+//! Verification-only synchronisation shim (compiled only with `--cfg prometheus_verif`).
+//!
+//! Drop-in wrappers for the atomics and locks used by this crate. Every operation is reported
+//! to a per-thread hook *before* it is performed (so that an external deterministic scheduler
+//! can decide when the calling thread may take the step) and its result is reported afterwards.
+//! Without an installed hook the wrappers behave exactly like the wrapped primitives.
+#![allow(missing_docs, missing_debug_implementations)]
+
+use std::cell::RefCell;
+use std::ops::{Deref, DerefMut};
+use std::sync::atomic::{self, Ordering};
+use std::sync::Arc;
+
+#[derive(Debug, Clone, Copy, PartialEq, Eq)]
+pub enum OpKind {
+    Load,
+    Store,
+    Swap,
+    FetchAdd,
+    FetchSub,
+    CasWeak,
+    Lock,
+    Unlock,
+    RLock,
+    RUnlock,
+    WLock,
+    WUnlock,
+}
+
+/// Description of one synchronisation step.
+#[derive(Debug, Clone, Copy, PartialEq, Eq)]
+pub struct Op {
+    pub kind: OpKind,
+    pub addr: usize,
+    pub ord: Option<Ordering>,
+    pub ord_fail: Option<Ordering>,
+    /// operand: stored value / delta / CAS `new`
+    pub a: u64,
+    /// CAS `current`
+    pub b: u64,
+}
+
+pub trait Hook: Send + Sync {
+    fn before(&self, op: &Op);
+    /// `ok` is false only for a failed compare-exchange; `val` is the value read / previous value.
+    fn after(&self, op: &Op, val: u64, ok: bool);
+}
+
+thread_local! {
+    static HOOK: RefCell<Option<Arc<dyn Hook>>> = const { RefCell::new(None) };
+}
+
+pub fn set_thread_hook(h: Option<Arc<dyn Hook>>) {
+    HOOK.with(|c| *c.borrow_mut() = h);
+}
+
+#[inline]
+fn hook() -> Option<Arc<dyn Hook>> {
+    HOOK.try_with(|c| c.borrow().clone()).ok().flatten()
+}
+
+macro_rules! step {
+    ($op:expr, $body:expr) => {{
+        let h = hook();
+        let op = $op;
+        if let Some(h) = &h {
+            h.before(&op);
+        }
+        let (ret, val, ok) = $body;
+        if let Some(h) = &h {
+            h.after(&op, val, ok);
+        }
+        ret
+    }};
+}
+
+#[derive(Debug, Default)]
+pub struct AtomicU64 {
+    inner: atomic::AtomicU64,
+}
+
+impl AtomicU64 {
+    pub const fn new(v: u64) -> Self {
+        Self { inner: atomic::AtomicU64::new(v) }
+    }
+    fn op(&self, kind: OpKind, ord: Ordering, a: u64) -> Op {
+        Op { kind, addr: self as *const _ as usize, ord: Some(ord), ord_fail: None, a, b: 0 }
+    }
+    /// Read without reporting (for state projection by the harness).
+    pub fn peek(&self) -> u64 {
+        self.inner.load(Ordering::SeqCst)
+    }
+    pub fn addr(&self) -> usize {
+        self as *const _ as usize
+    }
+    pub fn load(&self, ord: Ordering) -> u64 {
+        step!(self.op(OpKind::Load, ord, 0), { let v = self.inner.load(ord); (v, v, true) })
+    }
+    pub fn store(&self, v: u64, ord: Ordering) {
+        step!(self.op(OpKind::Store, ord, v), { self.inner.store(v, ord); ((), v, true) })
+    }
+    pub fn swap(&self, v: u64, ord: Ordering) -> u64 {
+        step!(self.op(OpKind::Swap, ord, v), { let p = self.inner.swap(v, ord); (p, p, true) })
+    }
+    pub fn fetch_add(&self, v: u64, ord: Ordering) -> u64 {
+        step!(self.op(OpKind::FetchAdd, ord, v), { let p = self.inner.fetch_add(v, ord); (p, p, true) })
+    }
+    pub fn fetch_sub(&self, v: u64, ord: Ordering) -> u64 {
+        step!(self.op(OpKind::FetchSub, ord, v), { let p = self.inner.fetch_sub(v, ord); (p, p, true) })
+    }
+    pub fn compare_exchange_weak(&self, cur: u64, new: u64, s: Ordering, f: Ordering) -> Result<u64, u64> {
+        let mut op = self.op(OpKind::CasWeak, s, new);
+        op.ord_fail = Some(f);
+        op.b = cur;
+        step!(op, {
+            // strong CAS: under the deterministic scheduler spurious failures would be noise
+            let r = self.inner.compare_exchange(cur, new, s, f);
+            (r, match r { Ok(v) | Err(v) => v }, r.is_ok())
+        })
+    }
+}
+
+#[derive(Debug, Default)]
+pub struct AtomicI64 {
+    inner: atomic::AtomicI64,
+}
+
+impl AtomicI64 {
+    pub const fn new(v: i64) -> Self {
+        Self { inner: atomic::AtomicI64::new(v) }
+    }
+    fn op(&self, kind: OpKind, ord: Ordering, a: i64) -> Op {
+        Op { kind, addr: self as *const _ as usize, ord: Some(ord), ord_fail: None, a: a as u64, b: 0 }
+    }
+    pub fn peek(&self) -> i64 {
+        self.inner.load(Ordering::SeqCst)
+    }
+    pub fn addr(&self) -> usize {
+        self as *const _ as usize
+    }
+    pub fn load(&self, ord: Ordering) -> i64 {
+        step!(self.op(OpKind::Load, ord, 0), { let v = self.inner.load(ord); (v, v as u64, true) })
+    }
+    pub fn store(&self, v: i64, ord: Ordering) {
+        step!(self.op(OpKind::Store, ord, v), { self.inner.store(v, ord); ((), v as u64, true) })
+    }
+    pub fn fetch_add(&self, v: i64, ord: Ordering) -> i64 {
+        step!(self.op(OpKind::FetchAdd, ord, v), { let p = self.inner.fetch_add(v, ord); (p, p as u64, true) })
+    }
+    pub fn fetch_sub(&self, v: i64, ord: Ordering) -> i64 {
+        step!(self.op(OpKind::FetchSub, ord, v), { let p = self.inner.fetch_sub(v, ord); (p, p as u64, true) })
+    }
+}
+
+fn lock_op(kind: OpKind, addr: usize) -> Op {
+    Op { kind, addr, ord: None, ord_fail: None, a: 0, b: 0 }
+}
+
+/// `std::sync::Mutex` look-alike.
+#[derive(Debug, Default)]
+pub struct Mutex<T> {
+    inner: std::sync::Mutex<T>,
+}
+
+#[derive(Debug)]
+pub struct PoisonError;
+
+pub struct MutexGuard<'a, T> {
+    g: Option<std::sync::MutexGuard<'a, T>>,
+    addr: usize,
+}
+
+impl<T> Mutex<T> {
+    pub const fn new(v: T) -> Self {
+        Self { inner: std::sync::Mutex::new(v) }
+    }
+    pub fn addr(&self) -> usize {
+        self as *const _ as usize
+    }
+    pub fn lock(&self) -> Result<MutexGuard<'_, T>, PoisonError> {
+        let addr = self.addr();
+        step!(lock_op(OpKind::Lock, addr), {
+            match self.inner.lock() {
+                Ok(g) => (Ok(MutexGuard { g: Some(g), addr }), 0, true),
+                Err(_) => (Err(PoisonError), 0, false),
+            }
+        })
+    }
+}
+
+impl<T> Deref for MutexGuard<'_, T> {
+    type Target = T;
+    fn deref(&self) -> &T {
+        self.g.as_ref().unwrap()
+    }
+}
+impl<T> DerefMut for MutexGuard<'_, T> {
+    fn deref_mut(&mut self) -> &mut T {
+        self.g.as_mut().unwrap()
+    }
+}
+impl<T> Drop for MutexGuard<'_, T> {
+    fn drop(&mut self) {
+        step!(lock_op(OpKind::Unlock, self.addr), { self.g.take(); ((), 0, true) })
+    }
+}
+
+/// `parking_lot::RwLock` look-alike.
+#[derive(Debug, Default)]
+pub struct RwLock<T> {
+    inner: parking_lot::RwLock<T>,
+}
+
+pub struct RwLockReadGuard<'a, T> {
+    g: Option<parking_lot::RwLockReadGuard<'a, T>>,
+    addr: usize,
+}
+pub struct RwLockWriteGuard<'a, T> {
+    g: Option<parking_lot::RwLockWriteGuard<'a, T>>,
+    addr: usize,
+}
+
+impl<T> RwLock<T> {
+    pub fn new(v: T) -> Self {
+        Self { inner: parking_lot::RwLock::new(v) }
+    }
+    pub fn addr(&self) -> usize {
+        self as *const _ as usize
+    }
+    pub fn read(&self) -> RwLockReadGuard<'_, T> {
+        let addr = self.addr();
+        step!(lock_op(OpKind::RLock, addr), { (RwLockReadGuard { g: Some(self.inner.read()), addr }, 0, true) })
+    }
+    pub fn write(&self) -> RwLockWriteGuard<'_, T> {
+        let addr = self.addr();
+        step!(lock_op(OpKind::WLock, addr), { (RwLockWriteGuard { g: Some(self.inner.write()), addr }, 0, true) })
+    }
+}
+impl<T> Deref for RwLockReadGuard<'_, T> {
+    type Target = T;
+    fn deref(&self) -> &T {
+        self.g.as_ref().unwrap()
+    }
+}
+impl<T> Drop for RwLockReadGuard<'_, T> {
+    fn drop(&mut self) {
+        step!(lock_op(OpKind::RUnlock, self.addr), { self.g.take(); ((), 0, true) })
+    }
+}
+impl<T> Deref for RwLockWriteGuard<'_, T> {
+    type Target = T;
+    fn deref(&self) -> &T {
+        self.g.as_ref().unwrap()
+    }
+}
+impl<T> DerefMut for RwLockWriteGuard<'_, T> {
+    fn deref_mut(&mut self) -> &mut T {
+        self.g.as_mut().unwrap()
+    }
+}
+impl<T> Drop for RwLockWriteGuard<'_, T> {
+    fn drop(&mut self) {
+        step!(lock_op(OpKind::WUnlock, self.addr), { self.g.take(); ((), 0, true) })
+    }
+}
